@@ -9,7 +9,7 @@ _NOTE = ("Static analysis of /repo's current source (Python ast, own name resolu
 _SITE_RULE = "one obligation per (rule, site); a site is non-trivial when the rule matched a real construct of the repository"
 
 PROPERTIES: dict[str, dict] = {
-    "C01": {"title": "Superadditive bounds always contain the true game", "rules": [bounds.rule_bounds, coalitions.rule_e_enum, coalitions.rule_k3_operators, game.rule_c17_columns, wiring.rule_known_coalitions],
+    "C01": {"title": "Superadditive bounds always contain the true game", "rules": [bounds.rule_bounds, coalitions.rule_e_enum, coalitions.rule_k3_operators, game.rule_c17_columns, game.rule_c17_compute_and_state, wiring.rule_known_coalitions],
             "explanation": _NOTE + " C01: abstract interpretation of both superadditive computers in the coalition-class domain: "
             "B1 write discipline, B2 coverage, B3 size order, B4 fresh reads, B5 phase order, B6s/B7s soundness shape of the recurrences, B10 relation-table agreement; E-enum completeness of the sub/super enumerations; G1 column discipline of the getters/setters the computers use.",
             "rule": _SITE_RULE},
@@ -31,10 +31,10 @@ PROPERTIES: dict[str, dict] = {
     "C07": {"title": "More information never hurts", "rules": [bounds.rule_bounds, norms.rule_n1_gap_registry, shapley.rule_c05_exploitability, shapley.rule_c06_shapley],
             "explanation": _NOTE + " C07: B13 knowledge polarity of every candidate set in all registered computers; N1 gap-function registry (names, partials, ord) and lp_norm shape; N2 gap polarity of exploitability (upper bounds enter through coalitions with the player, lower bounds without, factorial weights) via X1/X2/S1-S6.",
             "rule": _SITE_RULE},
-    "C08": {"title": "Bounds depend only on current knowledge", "rules": [bounds.rule_bounds, gym.rule_h3_undo, gym.rule_c09_typestate, game.rule_c17_copy_neg_init, game.rule_c17_columns, solvers.rule_c13_pairing_readonly],
+    "C08": {"title": "Bounds depend only on current knowledge", "rules": [bounds.rule_bounds, gym.rule_h3_undo, gym.rule_c09_typestate, game.rule_c17_copy_neg_init, game.rule_c17_columns, game.rule_c17_compute_and_state, solvers.rule_c13_pairing_readonly],
             "explanation": _NOTE + " C08: B1-B5 for all six registered computers, H1 no hidden state.",
             "rule": _SITE_RULE},
-    "C09": {"title": "The reveal-one-coalition environment", "rules": [gym.rule_c09_typestate, gym.rule_c09_step, gym.rule_c09_spaces, gym.rule_c09_reset, gym.rule_c09_done, gym.rule_h3_undo, wiring.rule_env_factory, wiring.rule_known_coalitions, normalize.rule_m1, normalize.rule_m2345, game.rule_c17_columns, game.rule_c17_getters, game.rule_c17_copy_neg_init],
+    "C09": {"title": "The reveal-one-coalition environment", "rules": [gym.rule_c09_typestate, gym.rule_c09_step, gym.rule_c09_spaces, gym.rule_c09_reset, gym.rule_c09_done, gym.rule_h3_undo, wiring.rule_env_factory, wiring.rule_known_coalitions, normalize.rule_m1, normalize.rule_m2345, game.rule_c17_columns, game.rule_c17_getters, game.rule_c17_copy_neg_init, game.rule_c17_compute_and_state],
             "explanation": _NOTE + " C09: T1 recompute-before-observe typestate, Y1 reveal pairing, Y2 index-space agreement, Y3 reset order/aliasing, Y4 explorable set, Y5 reward sign, D1 done predicate, H3 undo pairing.",
             "rule": _SITE_RULE},
     "C10": {"title": "Every offered generator runs and yields a game of its class", "rules": [generators.rule_nsig, generators.rule_nint, generators.rule_nrng, generators.rule_next_nfac, wiring.rule_graph_game, coalitions.rule_k1_k2, coalitions.rule_k3_operators],
@@ -58,7 +58,7 @@ PROPERTIES: dict[str, dict] = {
     "C16": {"title": "The size-aggregated environment", "rules": [gym.rule_c16, gym.rule_c09_step, gym.rule_c09_spaces],
             "explanation": _NOTE + " C16: Z1 aggregation of every observation/mask, Z2 candidate set = size AND mask, Z3 pass-through, Z4 sizes aligned with the inner explorable list.",
             "rule": _SITE_RULE},
-    "C17": {"title": "An incomplete game object is a faithful map", "rules": [game.rule_c17_columns, game.rule_c17_getters, game.rule_c17_copy_neg_init, game.rule_c17_writers, gameplay.rule_l1_lazy_reuse],
+    "C17": {"title": "An incomplete game object is a faithful map", "rules": [game.rule_c17_columns, game.rule_c17_getters, game.rule_c17_copy_neg_init, game.rule_c17_writers, game.rule_c17_compute_and_state, gameplay.rule_l1_lazy_reuse],
             "explanation": _NOTE + " C17: G1 column discipline, G2 guarded getters, G3 masked bulk setters, G4 copy/negation, G5 who-may-write _values, G6 view escape, G7 reset order, G8 reveal/unreveal preconditions.",
             "rule": _SITE_RULE},
     "C18": {"title": "Coalitions are finite sets; predicates match definitions", "rules": [coalitions.rule_k3_operators, coalitions.rule_e_enum, coalitions.rule_k1_k2],
